@@ -20,6 +20,7 @@ DECIDES = (
     "parameters in the requested direction (C16.END-PAIRING); every concrete curve class provides the four abstract methods with "
     "compatible signatures and every discretize includes both end parameters (C16.INTERFACE)."
     " 'parameter not given' is decided with 'is None', never by truth value, so 0 is a parameter (C16.NONE-TESTS); nothing computed from movable coordinates is memoised (C16.NO-MEMO)."
+    ' get_length samples both end parameters and every knot strictly between them, in the direction of travel (abstract run, part of C16.KNOT-DEPENDENCE); every get_closest_param implementation depends on self.bounds (C16.BOUNDS-RESPECTED); no parameter range starts at the literal 0 in methods that use self.bounds (C16.RANGE-START).'
 )
 NOT_DECIDED = "additivity of lengths, optimality of the closest parameter, interpolation accuracy (numerics)."
 ASSUMPTIONS = ["np.linspace(a, b, num=n) includes both end points unless endpoint=False is passed"]
